@@ -76,10 +76,24 @@ SkelObjs(f) ==
      [B("pk.mod.Sub", "Sub", "Class", "pk.mod", "S") EXCEPT
           !.bases = <<"pk.mod.Base", "pk.mod.Hid">>, !.mro = <<"pk.mod.Sub", "pk.mod.Base", "pk.mod.Hid">>,
           !.xrefs = {"pk.mod.Hid.hm"}, !.sumrefs = {"pk.mod.Hid.hm"}],
-     \* Sub.meth has no docstring of its own: it shows Base.meth's (Inheritable.docsources, model.py:825)
+     \* Sub.meth has no docstring of its own: it shows Base.meth's (Inheritable.docsources, model.py:825); the
+     \* reference to other is in the body, the one to attr in a FIELD (@return) of that docstring
      [B("pk.mod.Sub.meth", "meth", "Function", "pk.mod.Sub", "M") EXCEPT !.docsrc = "pk.mod.Base.meth",
           !.xrefs = {"pk.mod.Base.other", "pk.mod.Base.attr"}, !.sumrefs = {"pk.mod.Base.other"}],
      B("pk.mod.Sub.hm", "hm", "Function", "pk.mod.Sub", "H"),
+     \* two modules importing each other: pk/cyca.py starts with "from pk.cycb import Impl", so while cycb is analysed
+     \* its "from pk.cyca import CBase" finds nothing yet and the base of Impl is resolved only in post-processing
+     \* (model.py defaultPostProcess: _init_mro, then subclasses).  keep is inherited over two levels.
+     B("pk.cyca", "cyca", "Module", "pk", "C"),
+     [B("pk.cyca.CBase", "CBase", "Class", "pk.cyca", "C") EXCEPT !.subclasses = {"pk.cycb.Impl"}],
+     B("pk.cyca.CBase.run", "run", "Function", "pk.cyca.CBase", "R"),
+     B("pk.cyca.CBase.keep", "keep", "Function", "pk.cyca.CBase", "K"),
+     B("pk.cycb", "cycb", "Module", "pk", "C"),
+     [B("pk.cycb.Impl", "Impl", "Class", "pk.cycb", "I") EXCEPT !.bases = <<"pk.cyca.CBase">>,
+          !.mro = <<"pk.cycb.Impl", "pk.cyca.CBase">>, !.subclasses = {"pk.cycb.Special"}],
+     B("pk.cycb.Impl.run", "run", "Function", "pk.cycb.Impl", "R"),
+     [B("pk.cycb.Special", "Special", "Class", "pk.cycb", "S") EXCEPT !.bases = <<"pk.cycb.Impl">>,
+          !.mro = <<"pk.cycb.Special", "pk.cycb.Impl", "pk.cyca.CBase">>],
      [B("pk.mod.func", "func", "Function", "pk.mod", "F") EXCEPT
           !.annrefs = {"pk.mod.Hid", "pk.mod.Base"},
           !.xrefs = {"pk.mod.Sub"} \cup (IF f.move THEN {"pk.Moved"} ELSE {}),
@@ -107,7 +121,7 @@ Alt(v) == CASE v = "pk" -> {"PRIVATE"}
             [] v = "pk._impl" -> {"PUBLIC", "HIDDEN"}
             [] OTHER -> {"PRIVATE", "HIDDEN"}
 Varied(f) == {"pk", "pk.mod", "pk.mod.Base", "pk.mod.Base.meth", "pk.mod.Base.attr", "pk.mod.Hid", "pk.mod.Hid.hm",
-              "pk.mod.Sub", "pk.mod.func"}
+              "pk.mod.Sub", "pk.mod.func", "pk.cyca.CBase.keep", "pk.cycb.Impl"}
              \cup (IF f.nested THEN {"pk.mod.Sub.Inner"} ELSE {})
              \cup (IF f.dup THEN {"pk.mod.Dup"} ELSE {})
              \cup (IF f.move THEN {"pk._impl", "pk.Moved"} ELSE {})
@@ -130,9 +144,18 @@ Norm(o) == [id |-> o.id, qid |-> o.qid, name |-> o.name, cls |-> o.cls, parent |
 FromProjection(c) == [objs |-> [i \in DOMAIN c.objs |-> Norm(c.objs[i])], roots |-> c.roots, depth |-> c.depth]
 
 Case == Cases[cid]
-Model == IF Source = "enum" THEN Skeleton(feat, nd, depth)
-         ELSE IF Case.kind = "enum" THEN Skeleton(Case.feat, Range(Case.nd), Case.depth)
-         ELSE FromProjection(Case)
+Model0 == IF Source = "enum" THEN Skeleton(feat, nd, depth)
+          ELSE IF Case.kind = "enum" THEN Skeleton(Case.feat, Range(Case.nd), Case.depth)
+          ELSE FromProjection(Case)
+\* derived tables, computed once by action Build (TLC does not memoise operators):
+RECURSIVE VisR(_, _)      \* model.py:360 Documentable.isVisible
+VisR(os, i) == os[i].priv # "HIDDEN" /\ (os[i].parent = None \/ os[i].parent \notin DOMAIN os \/ VisR(os, os[i].parent))
+RECURSIVE InTreeR(_, _)   \* reachable from a root through .contents (what _writeDocsFor / the inventory walk)
+InTreeR(os, i) == os[i].incontents /\ (os[i].parent = None \/ (os[i].parent \in DOMAIN os /\ InTreeR(os, os[i].parent)))
+Model == LET m0 == Model0  os == m0.objs IN
+         [objs |-> os, roots |-> m0.roots, depth |-> m0.depth,
+          vis |-> [i \in DOMAIN os |-> VisR(os, i)], intree |-> [i \in DOMAIN os |-> InTreeR(os, i)],
+          kids |-> [i \in DOMAIN os |-> {c \in DOMAIN os : os[c].parent = i /\ os[c].incontents}]]
 M == mdl
 
 (***************************************************************************)
@@ -145,11 +168,9 @@ IsOwn(i) == Objs[i].cls \in {"Package", "Module", "Class"}     \* DocLocation.OW
 IsMod(i) == Objs[i].cls \in {"Package", "Module"}
 IsCls(i) == Objs[i].cls = "Class"
 
-RECURSIVE Vis(_)          \* model.py:360 Documentable.isVisible
-Vis(i) == Objs[i].priv # "HIDDEN" /\ (Objs[i].parent = None \/ Objs[i].parent \notin Ids \/ Vis(Objs[i].parent))
-RECURSIVE InTree(_)       \* reachable from a root through .contents (what _writeDocsFor / the inventory walk)
-InTree(i) == Objs[i].incontents /\ (Objs[i].parent = None \/ (Objs[i].parent \in Ids /\ InTree(Objs[i].parent)))
-Contents(i)    == {c \in Ids : Objs[c].parent = i /\ Objs[c].incontents}
+Vis(i)         == M.vis[i]
+InTree(i)      == M.intree[i]
+Contents(i)    == M.kids[i]
 VisContents(i) == {c \in Contents(i) : Vis(c)}
 Names(S)       == {Objs[c].name : c \in S}
 RECURSIVE Chain(_)
@@ -460,8 +481,15 @@ ObsSite == [files   |-> Range(Case.site.files),
 RECURSIVE CaseInTree(_)
 CaseInTree(i) == Case.objs[i].incontents /\ (Case.objs[i].parent = None
                     \/ (Case.objs[i].parent \in DOMAIN Case.objs /\ CaseInTree(Case.objs[i].parent)))
+\* customize.rst: "The order of arguments matters. Pattern added last have priority over a pattern added before, but
+\* an exact match wins over a fnmatch."  For an object named exactly by rules of the list the privacy the manual
+\* promises is that of the LAST such rule, whatever System.privacyClass answered; otherwise (patterns, defaults: C13)
+\* the System's answer is taken.  The property is judged against this expected privacy.
+ExactRules(i) == {k \in DOMAIN Case.rules : Case.rules[k].m = i}
+Expected(i, sys) == IF ExactRules(i) = {} \/ Case.objs[i].name = "__main__" THEN sys
+                    ELSE Case.rules[CHOOSE k \in ExactRules(i) : \A k2 \in ExactRules(i) : k2 <= k].p
 ObsView == [i \in DOMAIN Case.objs |-> LET o == Case.objs[i] IN
-              [id |-> i, parent |-> o.parent, priv |-> o.priv, own |-> o.ownpage, file |-> o.file, frag |-> o.frag,
+              [id |-> i, parent |-> o.parent, priv |-> Expected(i, o.priv), own |-> o.ownpage, file |-> o.file, frag |-> o.frag,
                intree |-> CaseInTree(i), root |-> o.parent = None, docsrc |-> o.docsrc, mro |-> Range(o.mro)]]
 ObsMulti == Cardinality(Range(Case.roots)) > 1
 
